@@ -348,6 +348,18 @@ def tree_nodes(g, binary_only=False, path=""):
     return out
 
 
+def tree_nodes_all(g, path=""):
+    """every HalfSpace of a live tree (also the cell leaves) in preorder"""
+    from montepy.surfaces.half_space import UnitHalfSpace
+
+    out = [(path, g)]
+    if not isinstance(g, UnitHalfSpace):
+        out += tree_nodes_all(g.left, path + "l")
+        if g.right is not None:
+            out += tree_nodes_all(g.right, path + "r")
+    return out
+
+
 def node_at(g, path):
     for d in path:
         g = g.left if d == "l" else g.right
@@ -489,6 +501,38 @@ def run_impl(case):
                 else:
                     st["text"] = geometry_text(lines, 1)
             else:
+                if k in ("setdiv", "setside"):
+                    # leaf edits (UnitHalfSpace.divider / .side setters): judged by the oracle only — the model does
+                    # not cover ValueNode.format of an edited value (properties C04/C05)
+                    from montepy.surfaces.half_space import UnitHalfSpace
+
+                    leaves_ = [(p_, o_) for p_, o_ in tree_nodes_all(cell.geometry) if isinstance(o_, UnitHalfSpace)
+                               and not (k == "setside" and o_.is_cell)]
+                    if not leaves_:
+                        st["noop"] = True
+                    else:
+                        path, leaf = leaves_[op.get("sel", 0) % len(leaves_)]
+                        st["path"] = path
+                        st["leaf_edit"] = True
+                        vm, full = var_masks(vs)
+                        if k == "setside":
+                            t_new = mask_str(full & ~hs_mask(leaf, vm, full), vs)
+                        elif leaf.is_cell:
+                            t_new = mask_str(vm[(True, op["nc"])], vs)
+                        else:
+                            m = vm[(False, op["n"])]
+                            t_new = mask_str(m if leaf.side else full & ~m, vs)
+                        st["expect"] = hs_table(cell.geometry, vs, (leaf, str_mask(t_new)))
+                        if k == "setside":
+                            leaf.side = not leaf.side
+                        elif leaf.is_cell:
+                            leaf.divider = prob.cells[op["nc"]]
+                        else:
+                            leaf.divider = prob.surfaces[op["n"]]
+                    st["str"] = str(cell.geometry)
+                    st["table"] = hs_table(cell.geometry, vs) if hs_leaves(cell.geometry, set()) <= set(vs) else None
+                    res["steps"].append(st)
+                    continue
                 # the HalfSpace the edit addresses: preorder index `sel` among the nodes the edit can be applied to
                 nodes = tree_nodes(cell.geometry, binary_only=(k == "setop"))
                 if not nodes:
@@ -632,6 +676,11 @@ def gen_ops(rng, maxlen=8):
         r = rng.random()
         if r < 0.04:
             ops.append({"k": "setop", "o": rng.choice(["inter", "union"])})
+        elif r < 0.07:
+            if rng.random() < 0.5:
+                ops.append({"k": "setside"})
+            else:
+                ops.append({"k": "setdiv", "n": rng.choice(SURFACES), "nc": rng.choice(CELLS)})
         elif r < 0.12:
             ops.append({"k": "not"})
         elif r < 0.30:
@@ -646,8 +695,8 @@ def gen_ops(rng, maxlen=8):
             ops.append(op)
     # 45 % of the edits address an inner HalfSpace (selector -> preorder index in the live tree at that moment)
     for op in ops:
-        if op["k"] != "write" and rng.random() < 0.45:
-            op["sel"] = rng.randrange(1, 64)
+        if op["k"] != "write" and (rng.random() < 0.45 or op["k"] in ("setside", "setdiv")):
+            op["sel"] = rng.randrange(0, 64)
     ops.append({"k": "write"})
     return ops
 
@@ -697,6 +746,9 @@ def gen_write_edit_write(max_leaves, full_upto):
                             if k != "not":
                                 e["x"] = {"e": "or", "a": nine, "b": {"e": "s", "n": 8, "sign": "-"}} if k == "replace" else nine
                             yield origin, a, [{"k": "write"}, e, {"k": "write"}]
+                    for j in range(n):
+                        yield origin, a, [{"k": "write"}, {"k": "setside", "sel": j}, {"k": "write"}]
+                        yield origin, a, [{"k": "write"}, {"k": "setdiv", "n": 9, "nc": 91, "sel": j}, {"k": "write"}]
 
 
 def make_case(origin, init, ops, rng=None, plain=False):
@@ -705,6 +757,10 @@ def make_case(origin, init, ops, rng=None, plain=False):
     for op in ops:
         if "x" in op:
             leaves(op["x"], vs)
+        if op["k"] == "setdiv":
+            for v in ((False, op["n"]), (True, op["nc"])):
+                if v not in vs:
+                    vs.append(v)
     case["vars"] = [list(v) for v in sorted(vs)]
     if origin == "parsed":
         case["text"] = render(init, rng, 0, plain) + ("" if plain else rng.choice(TRAIL))
